@@ -289,6 +289,7 @@ impl TranscriptRngBuilder {
 
         self.strobe.meta_ad(b"rng", false);
         self.strobe.key(&random_bytes, false);
+        crate::observe::label_next("merlin.finalize");
         crate::observe::emit(self.id, || crate::observe::Op::Finalize { external: random_bytes });
 
         TranscriptRng {
